@@ -138,8 +138,9 @@ Print Assumptions C03_back_TypeScript.
 (* C03_back_Kotlin.  Every IR item (inside dom_C03_item: what the parser produces) yields exactly: one
    <Enum><Variant>Inner class per struct variant, in variant order, listing that variant's fields in order;
    then the definition of the item itself, listing exactly the item's fields / variants in order, every
-   variant with the payload form of its source variant.  (A const stops the Kotlin back end with todo!():
-   the hypothesis is then false - recorded under C07.) *)
+   variant with the payload form of its source variant.  (A const stops the Kotlin back end with the error
+   "constants are not supported for Kotlin": the hypothesis is then false and the run ends with that diagnostic - reported, not
+   silently omitted; Props/C07.C07_kotlin_const_is_error.) *)
 Theorem C03_item_Kotlin : forall (cfg : kt_config) (it : ritem) ds,
   kt_decl_of cfg it = Ok ds -> dom_C03_item it = true -> good_C03_item Kotlin it (map kt_obs ds) = true.
 Proof. exact Proofs.C03_Kotlin.kt_item_good. Qed.
@@ -150,7 +151,7 @@ Theorem C03_back_Kotlin : forall (uc : unicode) (cfg : kt_config) (pd : parsed) 
 Proof. exact Proofs.C03_Kotlin.kt_file. Qed.
 Print Assumptions C03_back_Kotlin.
 
-(* C03_back_Swift: as Kotlin (CodableVoid is a file-level helper; consts: todo!(), C07) *)
+(* C03_back_Swift: as Kotlin (CodableVoid is a file-level helper; consts: the error "constants are not supported for Swift", Props/C07.C07_swift_const_is_error) *)
 Theorem C03_item_Swift : forall (uc : unicode) (cfg : sw_config) (it : ritem) st d st',
   sw_decl_of uc cfg it st = Ok (d, st') -> dom_C03_item it = true -> good_C03_item Swift it (sw_obs d) = true.
 Proof. exact Proofs.C03_Swift.sw_item_good. Qed.
